@@ -1,3 +1,4 @@
+import Rbp.Proofs.OutputCsv
 import Rbp.Model.Hex
 import Rbp.Model.Script
 import Rbp.Model.Run
@@ -150,6 +151,7 @@ def answer (cmd : String) (line : String) : String :=
 /-! ### `run`: whole-program scenarios (DESIGN Appendix D) -/
 
 structure ScenAcc where
+  fstrace : Bool := false
   opts : Run.Opts := ⟨"bitcoin", false, 0, none, "csvdump"⟩
   key : Option (List UInt8) := none
   kvs : List (List UInt8 × List UInt8) := []
@@ -159,6 +161,7 @@ def scenLine (a : ScenAcc) (toks : List String) : ScenAcc :=
   match toks with
   | ["opts", coin, v, s, e, cb] =>
     { a with opts := ⟨coin, v == "1", s.toNat!, if e == "-" then none else some e.toNat!, cb⟩ }
+  | ["fstrace"] => { a with fstrace := true }
   | ["xorkey", k] => { a with key := if k == "none" then none else some (parseHex k) }
   | ["kv", k, v] => { a with kvs := (parseHex k, parseHex v) :: a.kvs }
   | ["kv", k] => { a with kvs := (parseHex k, []) :: a.kvs }
@@ -176,13 +179,29 @@ def renderOutput (o : Run.Output) : List String :=
   o.events.map (fun e => match e with | .opening f => s!"ev open {f}" | .closing f => s!"ev close {f}") ++
   ["done"]
 
+/-- global order of the raw writes and renames of csvdump's four writers (the n-writer machine `ON` run on the write program
+    of `CsvDump::on_block`): `w<i>:<bytes>` per `write(2)`, `r<i>` per rename -/
+def fsTrace (cap : Nat) (ver : UInt8) (bs : List CB.EBlock) : String :=
+  let prog := ON.prog 4 (Run.csvWrites ver bs)
+  let (_, evs) := prog.foldl (fun (st : ON.S × List String) c =>
+    let s' := ON.step st.1 c
+    let news := (List.range 4).flatMap fun i =>
+      (((s'.ws i).log.drop (st.1.ws i).log.length).filter (fun p => p.1 > 0)).map fun p => s!"w{i}:{p.2}"
+    let ren := match c with | .rename i => if st.1.ok then [s!"r{i}"] else [] | _ => []
+    (s', ren.reverse ++ news.reverse ++ st.2)) (ON.init cap (fun _ => 1000000000000), [])
+  " ".intercalate evs.reverse
+
 partial def runLoop (hin hout : IO.FS.Stream) (a : ScenAcc) : IO Unit := do
   let line ← hin.getLine
   if line.isEmpty then return ()
   let toks := (line.trimAscii.toString.splitOn " ").filter (· ≠ "")
   if toks == ["end"] then
     let o := Run.run a.opts a.key a.kvs a.files
-    for l in renderOutput o do hout.putStrLn l
+    for l in (renderOutput o).dropLast do hout.putStrLn l
+    if a.fstrace && a.opts.callback == "csvdump" && o.exit == 0 then
+      let ver := match Run.coinOf a.opts.coin with | some c => c.version | none => 0
+      hout.putStrLn ("fstrace " ++ fsTrace 4000000 ver (Run.deliveredBlocks a.opts a.key a.kvs a.files))
+    hout.putStrLn "done"
     hout.flush
     runLoop hin hout {}
   else runLoop hin hout (scenLine a toks)
